@@ -240,6 +240,7 @@ func (Sim) Run(raw json.RawMessage, prop string, keep bool) (res simfw.Result) {
 			log.Add("sched", "switch", fmt.Sprintf("step %d: g%d@%s -> g%d@%s", t.Step, t.From, site(t.FromSite), t.To, site(t.ToSite)), "")
 		}
 	}
+	log.Add("sched", "trace", fmt.Sprintf("%d switches, %d steps", len(st.Trace), st.Steps), fmt.Sprintf("%x", h.Sum64()))
 	for g := range outcomes {
 		for k, o := range outcomes[g] {
 			log.Add(fmt.Sprintf("g%d", g), "op", s.Callers[g][k].Kind, o)
